@@ -6,6 +6,44 @@ BASELINE = ("cd /repo && /venv/bin/python -m pytest -ra -q -p no:cacheprovider -
             "--continue-on-collection-errors")
 
 CHECKS = {
+    'C01': dict(
+        text="TLC runs a reference model of the whole node parser (strict and tolerant; collector, delimited groups, math, "
+             "macro/environment/specials calls, every standard argument parser, verbatim) on every string up to the bound "
+             "under a context exercising every argument type and under the extracted default database, and checks the "
+             "Tier-A cover predicates (tiling, nesting, order, text = source slice) on its trees; the real parser's trees "
+             "must equal the model's and reproduce the input through latex_verbatim(); deviating and sampled real trees "
+             "are judged by TLC with the same predicates (TraceTree acceptor), so a re-segmentation that still tiles is "
+             "drift and anything else a violation.",
+        note="Bounded: strings of <=3 atoms (quick) / <=4 (thorough) over 41- and 36-atom alphabets, two contexts (+ one "
+             "without unknown-macro fallback in thorough), both parsing modes. Grammar-generated documents of unbounded "
+             "shape are covered through C02's writer. Trusted: TLC, the public-attribute projection.",
+        technique="TLA+ reference parser (Parser.tla) + Tier-A tree predicates (TreeProps.tla) checked by TLC; behaviours "
+                  "replayed into the real parser; real trees validated by TLC (TraceTree.tla)",
+        ref="DESIGN.md §5 C01"),
+    'C05': dict(
+        text="The strict reference parser predicts tree-or-error and the error position for every string up to the "
+             "bound; TLC checks that every model error is located inside the input; the real outcome (class, position, "
+             "line, column) must be the predicted one; deviating and sampled outcomes are judged by TLC against "
+             "Outcome.tla (tree, or LatexWalkerParseError with 0<=pos<=len and the line/column of pos); as_implemented "
+             "variants of two pinned defects are sensitivity controls. The single-fault clause is decided through the "
+             "document writer (see notes in the evidence).",
+        note="Bounded: strings of <=3/4 atoms over 41- and 36-atom alphabets, two contexts. Error *kinds* are not compared, "
+             "only class, position, line and column.",
+        technique="TLA+ reference parser outcome predictions checked by TLC and replayed; real outcomes validated by TLC "
+                  "against an acceptor spec (Outcome.tla); fault injection inside the TLA+ document writer",
+        ref="DESIGN.md §5 C05"),
+    'C06': dict(
+        text="TLC checks on the reference parser, for every string up to the bound: tolerant mode always returns a tree "
+             "(fuel-bounded recursion makes non-termination an outcome), equals strict when strict succeeds, and keeps the "
+             "top-level nodes of the longest strictly parseable prefix before the first error (PrefixKept); the real "
+             "strict and tolerant results must equal the model's; deviating and sampled executions are judged by TLC "
+             "acceptors on the implementation's own observations (outcome, same tree, PrefixKept against the real strict "
+             "parse of the prefix); the zero-width-placeholder variant is a control that must make the model loop.",
+        note="Bounded: strings of <=3/4 atoms, two contexts. PrefixKept is deliberately weaker than 'everything before the "
+             "error' (the prefix can cut a token), see DESIGN.md.",
+        technique="TLA+ reference parser in both modes with Tier-A invariants (TLC); replay; TLC acceptors for outcomes and "
+                  "trees",
+        ref="DESIGN.md §5 C06"),
     'C11': dict(
         text="TLC checks the Tier-A clauses (peek purity, peek = next, strict advance, reread after move_to_token equal, "
              "tiling/lossless, bounded number of reads, termination) on a reader machine built on a transcription of "
